@@ -6,7 +6,10 @@ PATCH="$1"; shift
 cd /repo || exit 2
 if ! git apply --check "$PATCH" 2>/dev/null; then echo "patch does not apply"; exit 2; fi
 git apply "$PATCH"
-trap 'git -C /repo checkout -- . ' EXIT INT TERM
+# evidence describes the unchanged tree: keep it out of the way of the runs on the changed one
+SAVE=$(mktemp -d /tmp/evidence-save.XXXXXX)
+cp /verif/evidence/*.json "$SAVE"/ 2>/dev/null
+trap 'git -C /repo checkout -- . ; cp "$SAVE"/*.json /verif/evidence/ 2>/dev/null; rm -rf "$SAVE"' EXIT INT TERM
 cd /verif
 for P in "$@"; do
   OUT=/tmp/mutant-$P.out
